@@ -361,6 +361,12 @@ func main() {
 				cases = append(cases, caseResolve(tmp, *in.Q, in.Existing))
 			case "render":
 				cases = append(cases, caseRender(tmp, in.Vars, in.Tpl))
+			case "backends":
+				var bi backendsIn
+				if err := json.Unmarshal(raw, &bi); err != nil {
+					panic(err)
+				}
+				cases = append(cases, caseBackends(tmp, bi))
 			case "seq":
 				var sq seqIn
 				if err := json.Unmarshal(raw, &sq); err != nil {
@@ -385,12 +391,17 @@ func main() {
 		r := gen.NewRand(o.Seed)
 		rParse, rPrint, rParams, rRes, rRender := r.Fork(), r.Fork(), r.Fork(), r.Fork(), r.Fork()
 		rSeq := r.Fork()
-		nParse := o.N * 35 / 100
+		rBack := r.Fork()
+		nParse := o.N * 30 / 100
 		nPrint := o.N * 10 / 100
-		nParams := o.N * 20 / 100
+		nParams := o.N * 15 / 100
 		nRender := o.N * 10 / 100
 		nSeq := o.N * 10 / 100
-		nRes := o.N - nParse - nPrint - nParams - nRender - nSeq
+		nBack := o.N * 10 / 100
+		nRes := o.N - nParse - nPrint - nParams - nRender - nSeq - nBack
+		for i := 0; i < nBack; i++ {
+			cases = append(cases, caseBackends(tmp, genBackends(rBack, i)))
+		}
 		for i := 0; i < nSeq; i++ {
 			cases = append(cases, caseSeq(tmp, genSeq(rSeq)))
 		}
